@@ -536,7 +536,11 @@ func (c20) Generate(r *sim.Rand, tier string) *sim.Scenario {
 	}
 	// "big" flavour: shared tensors large enough for size-triggered code paths
 	// (a 32..40 square matrix: m*n*k >= 2^15; a matrix of >= 4096 elements)
-	big := r.Bool(c20BigP)
+	pBig := c20BigP
+	if tier == "thorough" && sim.Instrumented() {
+		pBig = c20BigP / 4 // thorough scenarios are longer: a stage-A run of the big flavour then costs minutes
+	}
+	big := r.Bool(pBig)
 	rngStorm := !big && r.Bool(c20BigP/8)
 	if rngStorm {
 		ntasks = r.Range(4, 8)
